@@ -138,6 +138,8 @@ class Scenario(worlds.World):
             acts.append(("tick",))
         if self.net.pending:
             acts += [("accept",), ("refuse",)]
+            if self.p.get("unreachable", True):
+                acts.append(("unreachable",))        # the attempt fails with EHOSTUNREACH: an OSError, not a ConnectionError
         live = self.net.live()
         if live:
             acts += [("eof",), ("reset",), ("linkerr",), ("garbage",), ("badcrc",), ("poison",), ("trunc_eof",), ("frame",)]
@@ -164,6 +166,8 @@ class Scenario(worlds.World):
             L.turn()
         elif op in ("accept", "refuse"):
             self.net.resolve(op == "accept")
+        elif op == "unreachable":
+            self.net.resolve(False, exc=OSError(113, "sim: no route to host"))
         elif op == "eof":
             self.net.live()[-1].peer_eof()
         elif op == "reset":
